@@ -53,7 +53,9 @@ def run(tier, seed):
     if g.violated: raise FrameworkError("Outline: law violated %s\n%s" % (g.violated, g.cex[-1500:]))
     chk.cov["states"] = g.distinct; chk.cov["transitions"] = max(g.generated, 1)
     gs = tlc.run("Outline", GEN % (8, 6, "TRUE"), workers=4, simulate=(60 if tier == "quick" else 800), depth=10, seed=seed, timeout=900)
-    dl = uniq(g.printed + gs.printed, key=lambda d: d["src"])
+    gt = tlc.run("Outline", (GEN % (0, 6, "FALSE")).replace("INIT Init", "INIT InitStairs"), workers=4, timeout=900)
+    if gt.violated or len(gt.printed) < 12: raise FrameworkError("Outline(stairs): %s, %d documents" % (gt.violated, len(gt.printed)))
+    dl = uniq(g.printed + gs.printed + gt.printed, key=lambda d: d["src"])
     exe = build.build_harness("asan")
     segs = []; per = 20
     for i in range(0, len(dl), per):
@@ -98,7 +100,7 @@ def run(tier, seed):
     chk.add("traces_validated_against_impl", len(dl) - len(rejected))
     chk.cov["evaluations"] = len(dl); chk.cov["distinct_nontrivial"] = len([d for d in dl if len(d["doc"]["secs"]) >= 2])
     chk.cov["properly_nested"] = len([d for d in dl if d["proper"]])
-    chk.cov["rule"] = "documents: TLC BFS over every level sequence of <= %d sections (levels 1..%d) x metadata {none, 1, 2 keys} x preamble {none, text}, with titles/bodies/styles varied by position; TLC simulation up to 8 sections, levels 1..6; non-trivial = at least two sections" % (L, ML)
+    chk.cov["rule"] = "documents: TLC BFS over every level sequence of <= %d sections (levels 1..%d) x metadata {none, 1, 2 keys} x preamble {none, text}, with titles/bodies/styles varied by position; TLC simulation up to 8 sections, levels 1..6; deep stairs (levels 1..6 with 1-3 sections on every level, saw-tooth bottoms, up to 22 sections); non-trivial = at least two sections" % (L, ML)
     chk.sample(dict(src=dl[7]["src"])); chk.sample(dict(src=gs.printed[-1]["src"], proper=gs.printed[-1]["proper"]))
     seen = {}
     for seg, idx in rejected:
